@@ -44,7 +44,7 @@ def data_ok(d):
 class World(object):
     """one cache directory + one source file + the logical clock"""
 
-    def __init__(self, root, crossfs, chooser, size=300):
+    def __init__(self, root, crossfs, chooser, size=300, symlink=False):
         st = setup_subject()
         self.cs = st['cs']
         self.root = root
@@ -58,6 +58,12 @@ class World(object):
             self.tmp = os.path.join(root, 'tmp')
             os.makedirs(self.tmp)
         self.src = os.path.join(root, 'Dep-1.0.gir')
+        if symlink:
+            # the path the scanner is given is a symbolic link (stow/Nix style gir-1.0 directories); rewrites go to its target,
+            # the link itself is never touched again and is older than anything else
+            os.makedirs(os.path.join(root, 'real'))
+            os.symlink(os.path.join(root, 'real', 'Dep-1.0.gir'), self.src)
+            os.utime(self.src, ns=(0, 0), follow_symlinks=False)
         self.sched = fsched.Sched(chooser)
         fsched.ENV.sched = self.sched
         fsched.ENV.chunk = 97
@@ -241,7 +247,7 @@ def run_schedule(spec, prefix, rng=None, workroot=None):
             return rng.choice(runnable)
         return runnable[0]
     root = tempfile.mkdtemp(prefix='vt-c18-', dir=workroot or SHM)
-    w = World(root, spec['crossfs'], chooser, size=spec.get('size', 300))
+    w = World(root, spec['crossfs'], chooser, size=spec.get('size', 300), symlink=bool(spec.get('symlink')))
     try:
         # initial state, unscheduled (sched.current() is None -> yield points are no-ops except clock handling)
         if spec['init'] in ('fresh', 'stale'):
@@ -802,6 +808,10 @@ def run(args):
             for ops in TRIPLES:
                 items.append(('rnd', {'ops': ops, 'init': init, 'crossfs': crossfs, 'size': 150 if crossfs else 300}, args.seed,
                               int((60 if quick else 6000) * args.scale)))
+    # the same pairs with the source path being a symbolic link
+    for init in ('fresh', 'stale'):
+        for ops in PAIRS:
+            items.append(('ex', {'ops': ops, 'init': init, 'crossfs': False, 'size': 300, 'symlink': True}, int((200 if quick else 20000) * args.scale)))
     for crossfs in (False, True):
         for k in range(1, (14 if not crossfs else 30)):
             items.append(('crash', (args.seed, crossfs, k, 500)))
@@ -826,7 +836,9 @@ def run(args):
         kind = item[0]
         if kind in ('ex', 'rnd'):
             spec = item[1]
-            chk.cls('%s|%s|init=%s|crossfs=%d|%s' % (kind, '+'.join(spec['ops']), spec['init'], spec['crossfs'], 'exhausted' if r['exhausted'] else 'sampled'), r['distinct'])
+            chk.cls('%s|%s|init=%s|crossfs=%d%s|%s' % (kind, '+'.join(spec['ops']), spec['init'], spec['crossfs'], '|symlink' if spec.get('symlink') else '', 'exhausted' if r['exhausted'] else 'sampled'), r['distinct'])
+            if spec.get('symlink'):
+                chk.monitor_hits['schedules_with_symlinked_source'] += r['runs']
             chk.monitor_hits['schedules_judged'] += r['runs']
             if r['exhausted']:
                 chk.monitor_hits['operation_pairs_exhausted'] += 1
